@@ -498,6 +498,77 @@ func runC10(r *Report, rng *rand.Rand, thorough bool) {
 			}
 		}
 	}
+	// ---- members carrying oneOf / anyOf: the union survives the merge wherever its member stands in the list (every
+	// permutation of 2-3 members), and the declarations of the merged type do not depend on the order
+	{
+		base := map[string]any{"Cat": map[string]any{"type": "object", "properties": map[string]any{"meow": map[string]any{"type": "boolean"}}},
+			"Dog":   map[string]any{"type": "object", "properties": map[string]any{"bark": map[string]any{"type": "boolean"}}},
+			"Base":  map[string]any{"type": "object", "required": []string{"id"}, "properties": map[string]any{"id": map[string]any{"type": "integer"}}},
+			"Extra": map[string]any{"type": "object", "properties": map[string]any{"name": map[string]any{"type": "string"}}}}
+		for _, key := range []string{"oneOf", "anyOf"} {
+			union := map[string]any{key: []any{map[string]any{"$ref": "#/components/schemas/Cat"}, map[string]any{"$ref": "#/components/schemas/Dog"}}}
+			for _, others := range [][]any{{map[string]any{"$ref": "#/components/schemas/Base"}}, {map[string]any{"$ref": "#/components/schemas/Base"}, map[string]any{"$ref": "#/components/schemas/Extra"}},
+				{map[string]any{"type": "object", "properties": map[string]any{"inl": map[string]any{"type": "string"}}}}} {
+				members := append([]any{union}, others...)
+				var declSets []string
+				for _, perm := range permutations(len(members)) {
+					var allOf []any
+					for _, mi := range perm {
+						allOf = append(allOf, members[mi])
+					}
+					comps := map[string]any{}
+					for k, v := range base {
+						comps[k] = v
+					}
+					comps["Merged"] = map[string]any{"allOf": allOf}
+					spec, _ := json.Marshal(map[string]any{"openapi": "3.0.3", "info": map[string]any{"title": "m", "version": "1"}, "paths": map[string]any{}, "components": map[string]any{"schemas": comps}})
+					cfg := codegen.Configuration{PackageName: "gen", Generate: codegen.GenerateOptions{Models: true}}
+					cfg.OutputOptions.SkipPrune = true
+					replay := map[string]any{"spec": json.RawMessage(spec), "union_member_position": perm, "keyword": key}
+					r.Count(fmt.Sprintf("allof-union/%s/%d/%v", key, len(members), perm), true)
+					r.Dist["allof_member_carrying_"+key]++
+					code, err := generate(spec, cfg)
+					if err != nil {
+						r.Violate("allof_generation_fails", fmt.Sprintf("allOf with a member carrying %s, order %v: %s", key, perm, trunc(err.Error(), 200)), replay)
+						continue
+					}
+					p, perr := parseGo(code)
+					if perr != nil {
+						continue
+					}
+					fields, _ := structFields(p, "Merged")
+					hasUnion := false
+					for _, f := range fields {
+						if f.GoName == "union" {
+							hasUnion = true
+						}
+					}
+					var mine []string
+					for _, dn := range p.declNames() {
+						if strings.HasPrefix(dn, "func Merged.") {
+							mine = append(mine, dn)
+						}
+					}
+					need := 0
+					for _, dn := range mine {
+						if dn == "func Merged.AsCat" || dn == "func Merged.FromDog" || dn == "func Merged.MarshalJSON" || dn == "func Merged.UnmarshalJSON" {
+							need++
+						}
+					}
+					if !hasUnion || need != 4 {
+						r.Violate("allof_member_union_lost", fmt.Sprintf("allOf whose member number %d carries %s [Cat, Dog]: the merged type has union field = %v and methods %v", indexOf(perm, 0)+1, key, hasUnion, mine), replay)
+					}
+					declSets = append(declSets, strings.Join(mine, " "))
+				}
+				for _, ds := range declSets {
+					if ds != declSets[0] {
+						r.Violate("allof_order_dependent", fmt.Sprintf("allOf with a member carrying %s: the methods of the merged type depend on the order of the members", key), map[string]any{"keyword": key})
+						break
+					}
+				}
+			}
+		}
+	}
 	// ---- the legacy merge and additional properties: EVERY list of 1-3 inline object members over {none, true, string,
 	// integer} generated with old-merge-schemas; observed = rejected / no field / the value type of the field, compared with
 	// the model's fold (Model/Merge.v v1_addl) and with the statement (kept as soon as some member has them, in every order)
@@ -729,5 +800,14 @@ func runC10(r *Report, rng *rand.Rand, thorough bool) {
 			r.Violate(w.sig, msg, map[string]any{"spec": json.RawMessage(w.spec)})
 		}
 	}
-	r.Rule = "hook level: pairs of schemas over type {absent, object, string} x format x required x properties (4 names, 2 value types) x additionalProperties {absent, true, false, schema s, schema i} x nullable through mergeOpenapiSchemas vs the model (result or rejection) and vs the statement; end to end: allOf lists of 1-3 compatible members (alternately $ref and inline, overlapping identical properties, additionalProperties true/false/schema) in EVERY permutation x {flat, first two members nested by reference, nested inline, nested behind a one-member allOf by reference / inline} x old/new merge mode through codegen.Generate (old mode: the additional-properties field and its accessors / marshallers present together, in every order; every list of 1-3 inline members over {no, untyped, string, integer} additional properties vs the model's fold), struct fields (names, pointer-ness from required, additional-properties type) vs the union of the members and equal across permutations; one component shared by 2-3 compositions (reference first / last, emitted before / after them): every type has exactly its own members' properties; the two refuted clauses replayed; non-trivial = at least two members / a successful merge"
+	r.Rule = "hook level: pairs of schemas over type {absent, object, string} x format x required x properties (4 names, 2 value types) x additionalProperties {absent, true, false, schema s, schema i} x nullable through mergeOpenapiSchemas vs the model (result or rejection) and vs the statement; end to end: allOf lists of 1-3 compatible members (alternately $ref and inline, overlapping identical properties, additionalProperties true/false/schema) in EVERY permutation x {flat, first two members nested by reference, nested inline, nested behind a one-member allOf by reference / inline} x old/new merge mode through codegen.Generate (old mode: the additional-properties field and its accessors / marshallers present together, in every order; every list of 1-3 inline members over {no, untyped, string, integer} additional properties vs the model's fold), struct fields (names, pointer-ness from required, additional-properties type) vs the union of the members and equal across permutations; a member carrying oneOf / anyOf in every position of 2-3 members (union field and accessors kept, same methods in every order); one component shared by 2-3 compositions (reference first / last, emitted before / after them): every type has exactly its own members' properties; the two refuted clauses replayed; non-trivial = at least two members / a successful merge"
+}
+
+func indexOf(l []int, x int) int {
+	for i, v := range l {
+		if v == x {
+			return i
+		}
+	}
+	return -1
 }
